@@ -14,7 +14,7 @@ func TestVerifC01(t *testing.T) {
 	defer r.Finish()
 	th := r.Thorough()
 	o := vwOpts{
-		prop: "C01", cmds: ev.Pick(r, 2, 3), maxInstalls: ev.Pick(r, 2, 3), maxCrashes: ev.Pick(r, 1, 2), maxOutages: ev.Pick(r, 1, 2), retained: 2,
+		prop: "C01", cmds: ev.Pick(r, 2, 3), maxInstalls: ev.Pick(r, 2, 3), maxCrashes: 1, maxOutages: 1, retained: 2,
 		evSame: true, evTrailing: true, evHedge: true, evLocalLost: true, evOrder: th, evCrashReplace: th, evRepair: th,
 		oC01: true, reportKF: true,
 	}
